@@ -46,6 +46,7 @@ search : when a proof / table / correspondence no longer checks: the three strea
 import hashlib
 import json
 import math
+import copy
 import os
 import random
 import shutil
@@ -1348,6 +1349,21 @@ def eval_meta(ctx, exe, cases, stats, hist):
         # KNOWN-FINDING while the repair is pending and a plain violation for every other cause
         sig = SIG_PCA_OFFSET if (c["method"] == "pca" and c["tr"].get("offset") == "large"
                                  and c["tr"]["kind"] in ("trans", "combo") and "not " in why) else None
+        # exact duplicates are exact distance ties; with neighbors_method = VpTree the tied neighbour that is kept
+        # depends on the std::rand state (the pivots), which differs between the call on the input and the call on
+        # its image in the same process: that is the known finding SIG_VPTREE_TIES, not a new one.  It is reported
+        # under that signature only when the SAME case with the position-tie-breaking brute-force search satisfies
+        # the relation; anything else stays a plain violation.
+        if (sig is None and c["params"].get("nm") == "vptree" and c["tr"].get("duplicates")
+                and "aborts / hangs" not in why and "garbage" not in why):
+            cb = copy.deepcopy(c)
+            cb["params"]["nm"] = "brute"
+            wb = meta_verdict(cb, run_impl(ctx, exe, meta_cmds(cb), timeout=120, env={"OMP_NUM_THREADS": "1"}), {})
+            if wb is None:
+                sig = SIG_VPTREE_TIES
+                stats["meta_vptree_duplicate_ties"] = stats.get("meta_vptree_duplicate_ties", 0) + 1
+                rc = c
+                why = why.split(" [shrunk")[0] + " [exact duplicate samples + VpTree; the same case with neighbors_method = Brute satisfies the relation]"
         ctx.violation(rc, why, signature=sig)
     return evals
 
